@@ -290,7 +290,8 @@ Inductive sitem := SKey (e : expr) | SAgg (x : aexpr).
 Inductive gclause :=
 | GPlain (ks : list expr)                 (* GROUP BY ks; [] = no GROUP BY clause at all (global aggregate) *)
 | GSets (sets : list (list expr)).        (* GROUP BY GROUPING SETS (...) *)
-Record gblock := mkG { g_where : list expr; g_group : gclause; g_sel : list (sitem * string) }.
+(** [g_having] = the block carries HAVING COUNT( * ) > 0 (sqlframe adds it to GROUPING SETS blocks) *)
+Record gblock := mkG { g_where : list expr; g_group : gclause; g_sel : list (sitem * string); g_having : bool }.
 
 Fixpoint find_expr (e : expr) (gs : list expr) : option nat :=
   match gs with
@@ -318,10 +319,13 @@ Definition eval_gblock (g : gblock) (fr : frame) : frame :=
   let cs := cols fr in
   let rs := filter (all_hold cs (g_where g)) (rows fr) in
   mkFrame (map snd (g_sel g))
-          (match g_group g with
-           | GPlain ks => set_rows cs (g_sel g) rs ks
-           | GSets sets => flat_map (set_rows cs (g_sel g) rs) sets
-           end).
+          (* HAVING COUNT( * ) > 0 drops the groups without rows: only the grand total of an empty input is one,
+             and then no other grouping set has a group *)
+          (if g_having g && (match rs with [] => true | _ => false end) then []
+           else match g_group g with
+                | GPlain ks => set_rows cs (g_sel g) rs ks
+                | GSets sets => flat_map (set_rows cs (g_sel g) rs) sets
+                end).
 
 Lemma wf_eval_gblock g fr : wf_frame (eval_gblock g fr).
 Proof.
@@ -331,6 +335,7 @@ Proof.
   { intros rs gs Hin. unfold set_rows in Hin. destruct gs as [|g0 gs'].
     - destruct Hin as [<-|[]]. unfold sel_row. rewrite !map_length. reflexivity.
     - apply in_map_iff in Hin. destruct Hin as [k [<- _]]. unfold sel_row. rewrite !map_length. reflexivity. }
+  destruct (g_having g && _); [contradiction|].
   destruct (g_group g) as [ks|sets]; [eapply H; exact Hr|].
   apply in_flat_map in Hr. destruct Hr as [gs [_ Hin]]. eapply H; exact Hin.
 Qed.
@@ -343,11 +348,11 @@ Definition agg_items (aggs : list (aexpr * string)) : list (sitem * string) :=
 (** [append] is the flag given to sqlglot's .select(): true would keep the select list already there *)
 Definition agg_gblock (append : bool) (b : block) (keys : list (expr * string)) (aggs : list (aexpr * string)) : gblock :=
   mkG (b_where b) (GPlain (map fst keys))
-      ((if append then map (fun p => (SKey (fst p), snd p)) (b_sel b) else []) ++ key_items keys ++ agg_items aggs).
-Definition cube_gblock (append : bool) (sets : list (list expr)) (b : block)
+      ((if append then map (fun p => (SKey (fst p), snd p)) (b_sel b) else []) ++ key_items keys ++ agg_items aggs) false.
+Definition cube_gblock (append having : bool) (sets : list (list expr)) (b : block)
            (keys : list (expr * string)) (aggs : list (aexpr * string)) : gblock :=
   mkG (b_where b) (GSets sets)
-      ((if append then map (fun p => (SKey (fst p), snd p)) (b_sel b) else []) ++ key_items keys ++ agg_items aggs).
+      ((if append then map (fun p => (SKey (fst p), snd p)) (b_sel b) else []) ++ key_items keys ++ agg_items aggs) having.
 
 Lemma expr_eqb_refl e : expr_eqb e e = true.
 Proof.
@@ -540,22 +545,33 @@ Proof.
   - apply map_ext. intro k. apply sel_row_split.
 Qed.
 
-(** the GROUPING SETS block sqlframe emits for cube means PySpark's cube (as a multiset) whenever at least
-    one row reaches the aggregation; [idxs] is the index list of sqlframe's loop *)
-Theorem cube_block_is_spec (idxs : nat -> list nat) b keys aggs fr :
+Lemma level_rows_nil cs all aggs sub : level_rows cs all aggs [] sub = [].
+Proof. reflexivity. Qed.
+
+(** the GROUPING SETS block sqlframe emits for cube means PySpark's cube (as a multiset): on every input when the
+    block carries HAVING COUNT( * ) > 0, otherwise whenever at least one row reaches the aggregation;
+    [idxs] is the index list of sqlframe's loop *)
+Theorem cube_block_is_spec (idxs : nat -> list nat) (having : bool) b keys aggs fr :
   (forall n, Permutation (idxs n) (seq 0 (S n))) ->
   let fr' := mkFrame (cols fr) (filter (all_hold (cols fr) (b_where b)) (rows fr)) in
-  rows fr' <> [] ->
-  cols (eval_gblock (cube_gblock false (cube_sets_with idxs (map fst keys)) b keys aggs) fr)
+  having = true \/ rows fr' <> [] ->
+  cols (eval_gblock (cube_gblock false having (cube_sets_with idxs (map fst keys)) b keys aggs) fr)
   = cols (spec_cube keys aggs fr')
-  /\ Permutation (rows (eval_gblock (cube_gblock false (cube_sets_with idxs (map fst keys)) b keys aggs) fr))
+  /\ Permutation (rows (eval_gblock (cube_gblock false having (cube_sets_with idxs (map fst keys)) b keys aggs) fr))
                  (rows (spec_cube keys aggs fr')).
 Proof.
-  intros Hidx fr' Hne. split.
+  intros Hidx fr' Hdom. split.
   - unfold eval_gblock, cube_gblock, spec_cube, agg_names, key_items, agg_items; simpl.
     rewrite map_app, !map_map. reflexivity.
-  - unfold eval_gblock, cube_gblock, spec_cube; simpl. simpl in Hne.
+  - subst fr'. unfold eval_gblock, cube_gblock, spec_cube. cbn [g_where g_group g_sel g_having rows cols] in *.
     set (rs := filter _ _) in *.
-    rewrite (flat_map_ext _ _ (fun gs => set_rows_level (cols fr) keys aggs rs gs Hne)).
-    apply Permutation_flat_map. apply cube_sets_with_powerset. exact Hidx.
+    destruct rs as [|r0 rs'] eqn:Ers.
+    + (* no row reaches the aggregation *)
+      assert (Hs : flat_map (level_rows (cols fr) (map fst keys) (map fst aggs) []) (powerset (map fst keys)) = []).
+      { induction (powerset (map fst keys)) as [|x l IH]; simpl; [reflexivity | exact IH]. }
+      rewrite Hs. destruct Hdom as [->|Hne]; [simpl; constructor | congruence].
+    + rewrite andb_false_r. cbn [app].
+      assert (Hne : r0 :: rs' <> []) by discriminate.
+      rewrite (flat_map_ext _ _ (fun gs => set_rows_level (cols fr) keys aggs (r0 :: rs') gs Hne)).
+      apply Permutation_flat_map. apply cube_sets_with_powerset. exact Hidx.
 Qed.
